@@ -578,6 +578,47 @@ def r6(ctx, R):
         R.undecided("C11.R6", f.short, "argument store", loc(f, f.node), "no store of an attribute argument found in the mapping loop")
 
 
+# ------------------------------------------------------------------ R7
+def r7(ctx, R):
+    """What one declaration statement says (type, kind selector, attribute list) is
+    read once into a record and applies to *every* entity of the statement.  A
+    store into that record inside the loop over the statement's entity names makes
+    the entities after it see a different statement than the ones before it."""
+    R.rule("C11.R7", "the per-statement declaration record is not written inside the loop over the statement's entities", floor=1, confirmed=1)
+    n = 0
+    for f in sorted(ctx.m.funcs.values(), key=lambda g: g.qual):
+        if not f.rel.startswith("fortls/parsers/") or f.rel.endswith("debug.py"):
+            continue
+        for lp in (x for x in ctx.m.walk_own(f.node) if isinstance(x, ast.For)):
+            # `for name in REC.<names>`: REC is the shared record
+            it = lp.iter
+            if not (isinstance(it, ast.Attribute) and isinstance(it.value, ast.Name)):
+                continue
+            rec = it.value.id
+            if rec == (f.params[0] if f.cls and f.params else None):
+                continue
+            # is it a record read inside the loop as well (its other fields describe each entity)?
+            reads = [x for s_ in lp.body for x in ast.walk(s_) if isinstance(x, ast.Attribute) and isinstance(x.value, ast.Name) and x.value.id == rec and isinstance(x.ctx, ast.Load) and x.attr != it.attr]
+            if not reads:
+                continue
+            n += 1
+            writes = []
+            for s_ in lp.body:
+                for x in ast.walk(s_):
+                    if isinstance(x, (ast.Assign, ast.AugAssign, ast.AnnAssign)):
+                        for t in x.targets if isinstance(x, ast.Assign) else [x.target]:
+                            if isinstance(t, ast.Attribute) and isinstance(t.value, ast.Name) and t.value.id == rec:
+                                writes.append((x, t.attr))
+            k = key(f, lp)[:90]
+            if writes:
+                x, a = writes[0]
+                R.violation("C11.R7", f.short, k, loc(f, x), f"`{rec}.{a}` is re-bound inside the loop over `{unparse(it)}`: the record describes the whole statement, so every entity declared after this one on the same statement is built from the altered value (`character(len=32) :: a, b*80, c` gives `c` the type of a statement without the selector)")
+            else:
+                R.ok("C11.R7", f.short, k, loc(f, lp), f"`{rec}` is only read ({len(reads)} reads) while the entities are built")
+    if n == 0:
+        raise AnalysisError("C11.R7: no loop over the entity names of a declaration record found")
+
+
 def run(ctx, R):
     r1(ctx, R)
     r2(ctx, R)
@@ -585,3 +626,4 @@ def run(ctx, R):
     r4(ctx, R)
     r5(ctx, R)
     r6(ctx, R)
+    r7(ctx, R)
